@@ -294,3 +294,18 @@ func LoadReplay(into any) (bool, error) {
 
 // HasFail reports whether a failure is remembered and not yet flushed.
 func (r *Rec) HasFail() bool { r.mu.Lock(); defer r.mu.Unlock(); return r.lastFail != nil }
+
+// MineExcept distributes deterministic work item i over all shards except `excluded` (a shard
+// dedicated to one long job, e.g. compiling the whole circuit); with fewer than 4 shards the
+// exclusion is ignored.
+func MineExcept(i, excluded int) bool {
+	n := NShards()
+	if n < 4 || excluded < 0 || excluded >= n {
+		return Mine(i)
+	}
+	k := i % (n - 1)
+	if k >= excluded {
+		k++
+	}
+	return k == ShardIdx()
+}
